@@ -105,7 +105,15 @@ def ref_scores(case, X, y, S, spec, th_cov, th_mean):
         else:
             mu[i] = m[i] + k @ sla.solve(Kr, r[keep], assume_a="sym")
             var[i] = K[i, i] - k @ sla.solve(Kr, k, assume_a="sym")
-    return {"lml": lml, "scale": scale, "loo_mu": mu, "loo_var": var, "K": K, "m": m}, kappa
+    # round-off of the documented mean function itself (coordinates centred on the centroid carry eps*|x| each, times the slope /
+    # curvature coefficients): an absolute error mr in every entry of y - m(x), which enters the scores through K^-1
+    mr = 16 * gc.mean_roundoff(case["mean"], th_mean, X)
+    Kinv = np.linalg.inv(K)
+    alpha_f = Kinv @ r
+    ro_lml = mr * float(np.sum(np.abs(alpha_f)))
+    ro_mu = mr * (1.0 + (np.abs(Kinv) @ np.ones(n)) / np.abs(np.diag(Kinv)))
+    ro_loo = float(np.sum(np.abs(y - mu) / np.maximum(var, 1e-300) * ro_mu))
+    return {"lml": lml, "scale": scale, "loo_mu": mu, "loo_var": var, "K": K, "m": m, "ro_lml": ro_lml, "ro_mu": ro_mu, "ro_loo": ro_loo}, kappa
 
 
 def loo_sum(y, mu, var):
@@ -138,11 +146,11 @@ def check_loo_predictions(gp, ref, kappa, y, spec, tag, ctx, when=""):
         raise Violation(f"loo-shape:{tag}", f"loo_predictions shapes {mu.shape}, {sig.shape}")
     prior_sd = np.sqrt(np.maximum(np.diag(ref["K"]), 1e-300))
     sc_mu = np.abs(ref["loo_mu"]) + np.abs(y) + prior_sd * np.sqrt(kappa)
-    e1 = np.max(np.abs(mu - ref["loo_mu"]) / (f * sc_mu))
+    e1 = np.max(np.abs(mu - ref["loo_mu"]) / (f * sc_mu + ref["ro_mu"]))
     e2 = np.max(np.abs(sig**2 - ref["loo_var"]) / (f * np.diag(ref["K"])))
     ctx.ratio("loo-predictions", max(e1, e2), 1.0)
     if not max(e1, e2) <= 1 or not np.all(np.isfinite(mu)):
-        i = int(np.argmax(np.abs(mu - ref["loo_mu"]) / (f * sc_mu)))
+        i = int(np.argmax(np.abs(mu - ref["loo_mu"]) / (f * sc_mu + ref["ro_mu"])))
         raise Violation(f"loo-predictions:{tag}", f"{rk.describe(spec)} n={n}{when}: LOO mean[{i}] {mu[i]!r} vs refit {ref['loo_mu'][i]!r}; var {sig[i]**2!r} vs {ref['loo_var'][i]!r} (ratios {e1:.3g}, {e2:.3g})")
 
 
@@ -164,10 +172,11 @@ def body_scores(case, ctx):
         lml = float(gp.marginal_likelihood(theta_arg(case, theta)))
         lml_g, _ = gp.marginal_likelihood_gradient(theta_arg(case, theta))
     err = abs(lml - ref["lml"])
-    ctx.ratio("marginal", err, f * ref["scale"])
-    if not np.isfinite(lml) or err > f * ref["scale"]:
-        raise Violation(f"marginal:{tag}", f"{rk.describe(spec)} n={n}: marginal_likelihood {lml!r} vs log N(y; m, K+S) + n/2 log 2pi = {ref['lml']!r} (tol {f * ref['scale']:.3g})")
-    if abs(float(lml_g) - lml) > f * ref["scale"]:
+    tol_lml = f * ref["scale"] + ref["ro_lml"]
+    ctx.ratio("marginal", err, tol_lml)
+    if not np.isfinite(lml) or err > tol_lml:
+        raise Violation(f"marginal:{tag}", f"{rk.describe(spec)} n={n}: marginal_likelihood {lml!r} vs log N(y; m, K+S) + n/2 log 2pi = {ref['lml']!r} (tol {tol_lml:.3g})")
+    if abs(float(lml_g) - lml) > tol_lml:
         raise Violation(f"marginal-gradient-value:{tag}", f"value from marginal_likelihood_gradient {float(lml_g)!r} vs {lml!r}")
     # independent cross-check of the oracle via scipy's multivariate normal
     from scipy.stats import multivariate_normal
@@ -195,7 +204,7 @@ def body_scores(case, ctx):
               + np.sum(np.abs(np.log(ref2["loo_var"]))) + np.sum((y - ref2["loo_mu"]) ** 2 / ref2["loo_var"]) + n)
         # errors in the LOO variances are amplified by 1/var relative to the prior variance
         amp = max(np.max(np.diag(ref["K"]) / ref["loo_var"]), np.max(np.diag(ref2["K"]) / ref2["loo_var"]))
-        tol = f2 * sc * max(1.0, amp)
+        tol = f2 * sc * max(1.0, amp) + ref["ro_loo"] + ref2["ro_loo"]
         e = abs((l1 - l2) - (r1 - r2))
         ctx.ratio("loo-score", e, tol)
         if not np.isfinite(l1 - l2) or e > tol:
